@@ -23,7 +23,62 @@ import (
 	"seehuhn.de/go/pdf/pagetree"
 )
 
-var errInj = errors.New("injected read fault")
+// errInj is the error the byte source currently fails with; it is one of the
+// shapes below.  The outcome `io` demands errors.Is(err, errInj) and
+// !pdf.IsMalformed(err) whatever the shape.
+var errInj error = errPlain
+
+var errPlain = errors.New("injected read fault")
+
+// lookalikeErr prints like a malformed-file error without being one.
+type lookalikeErr struct{}
+
+func (lookalikeErr) Error() string { return "invalid PDF: unexpected EOF while reading Dict" }
+
+// eofIsErr answers errors.Is(err, io.EOF) with true through an Is method.
+type eofIsErr struct{}
+
+func (eofIsErr) Error() string        { return "range request aborted" }
+func (eofIsErr) Is(target error) bool { return target == io.EOF }
+
+// timeoutErr is a net.Error-like deadline error.
+type timeoutErr struct{}
+
+func (timeoutErr) Error() string   { return "i/o timeout" }
+func (timeoutErr) Timeout() bool   { return true }
+func (timeoutErr) Temporary() bool { return true }
+func (timeoutErr) Is(target error) bool {
+	return target == os.ErrDeadlineExceeded
+}
+
+type faultShape struct {
+	name string
+	err  error
+}
+
+// the family of fault errors; the first is the one used for the full enumeration
+var faultShapes = []faultShape{
+	{"plain", errPlain},
+	{"wrapEOF", fmt.Errorf("connection lost: %w", io.EOF)},
+	{"wrapUEOF", fmt.Errorf("connection lost: %w", io.ErrUnexpectedEOF)},
+	{"lookalike", &lookalikeErr{}},
+	{"isEOF", &eofIsErr{}},
+	{"timeout", &timeoutErr{}},
+}
+
+// state of the enumeration: the shape in use, the id prefix of its case lines
+// and the fault modes enumerated with it
+var (
+	curShape    = faultShapes[0]
+	activeModes = fmodes
+)
+
+func docID(di int) string {
+	if curShape.name == "plain" {
+		return fmt.Sprintf("d%d", di)
+	}
+	return fmt.Sprintf("d%d.%s", di, curShape.name)
+}
 
 // faultSrc is the wrapped byte source.
 type faultSrc struct {
@@ -100,7 +155,29 @@ var (
 	srcLinesMu sync.Mutex
 )
 
+// repoFile maps a file name from the debug information to the source tree under
+// test: the harness is built with -trimpath, which turns the directory of the
+// replaced module into "seehuhn.de/go/pdf@v0.0.0/".
+func repoFile(file string) string {
+	if _, err := os.Stat(file); err == nil {
+		return file
+	}
+	const mod = "seehuhn.de/go/pdf"
+	if i := strings.Index(file, mod); i >= 0 {
+		rest := file[i+len(mod):]
+		if j := strings.Index(rest, "/"); j >= 0 {
+			root := os.Getenv("VERIF_REPO")
+			if root == "" {
+				root = "/repo"
+			}
+			return root + rest[j:]
+		}
+	}
+	return file
+}
+
 func sourceLine(file string, line int) string {
+	file = repoFile(file)
 	srcLinesMu.Lock()
 	defer srcLinesMu.Unlock()
 	ls, ok := srcLines[file]
